@@ -62,7 +62,8 @@ CONSTANTS
   Modes,        \* subset of {"pruned", "archival", "convert"}; "convert" = archival node restarted as pruned
   MaxRestarts,  \* bound on Restart
   MaxDeletes,   \* bound on header-store tail deletions
-  IntraHead,    \* TRUE: the head may also grow between two batches of one cycle
+  IntraHead,    \* TRUE: the head may also grow between two batches of one cycle (findPruneableHeaders reads
+                \* Head() afresh for every batch; growth between its two reads of one call is not modelled)
   Fix13,        \* TRUE: repaired batch loop (see above)
   LazyChain,    \* FALSE: the whole chain's timestamps are chosen in Init; TRUE: a header's timestamp is
                 \* chosen when the header arrives (same behaviours, few initial states: for simulation)
